@@ -196,12 +196,6 @@ def toStringOf (e : Entry) (bytes : List Nat) : Outcome (List Nat) :=
 
 /-- `ST::format…(fmt, args…)`: the bytes of the returned `ST::string` -/
 def runFormat (e : Entry) (fmt : Option (List Nat)) (args : List Arg) : Outcome (List Nat) :=
-  match run fmt args with
-  | .ok ev => toStringOf e (flatten ev)
-  | .throw x => .throw x
-  | .assertFail w => .assertFail w
-  | .ub w => .ub w
-  | .oob => .oob
-  | .stuck => .stuck
+  (run fmt args).bind fun ev => toStringOf e (flatten ev)
 
 end StVerif.Fmt
